@@ -1,6 +1,6 @@
 //@ assume: siphash_block is an uninterpreted function of (keys, nonce); the two endpoints are its low and high halves masked to the node range -- SipHash itself is outside; CuckooParams keeps its real fields; Proof is reduced to its nonce vector; global::proofsize() is an uninterpreted constant in 1..=2^20
 //@ assume: T6 rewrites: `vec![x; n]` => helper vec_filled (n copies of x); every `Err(Error::Verification("<message>".to_owned()))` => `Err(Error::<Kind>)`, one abstract kind per message, so that the contract can say WHY the input checks fail; integer literal types made explicit; `for n in 0..size` loops get spliced invariants
-//@ assume: termination of the two cycle-following loops is NOT proved: exec_allows_no_decreases_clause
+//@ assume: termination IS proved (no exec_allows_no_decreases_clause): the outer walk visits distinct endpoints (injective step + pigeonhole), so it takes fewer than 2*size steps; the inner walk goes once round the circular bucket list (measure: not-yet-wrapped flag, then the cursor)
 //@ assume: assumed: u64::leading_zeros(x) >= 1 for x < 2^63 (std intrinsic; only used to show `1 + mask` cannot overflow)
 //@ assume: decided here, for ANY proof size and any siphash outputs (no bound): CuckarooContext::verify (Cuckaroo, the pre-hard-fork ASIC-resistant proof of work; bipartite graph, U endpoints at even and V endpoints at odd positions, two endpoints meet at a node when they are on the same side and carry the same value) never indexes out of range, and returns Ok ONLY IF the 2*size endpoints form one simple cycle through all `size` edges: starting from endpoint 0 and repeatedly moving to the UNIQUE other endpoint at the same node and then to the other end of that edge, the walk returns to endpoint 0 for the first time after exactly `size` steps, every node met has exactly two endpoints, all visited endpoints are distinct; plus nonces strictly ascending and within the edge mask. Every error except the xor pre-check carries its reason: wrong-length / edge-too-big / not-ascending are returned only for that reason; 'branch' only if three distinct endpoints share a node; 'dead end' only if some endpoint has no partner; 'too short' only if the walk from endpoint 0 closes after m != size steps -- each of which is incompatible with the endpoints forming one simple cycle through all edges. (Not decided: that the xor pre-check 'endpoints don't match up' never fires on a simple cycle -- the pairing argument over xor -- so completeness is decided up to that check.)
 //@ assume: 64-bit target
@@ -181,10 +181,12 @@ proof fn lemma_inner_step(uvs: Seq<u64>, mask: u64, i: int, k: int, j: int, wrap
             k2 != i && key(uvs, k2) != key(uvs, i) ==> minv(uvs, mask, i, k2, j, wrapped || k2 >= k),
             k2 != i && key(uvs, k2) == key(uvs, i) && j == i ==> minv(uvs, mask, i, k2, k2, wrapped || k2 >= k),
             k2 != i ==> !exam(uvs, mask, i, k, wrapped, k2),
+            wrapped ==> k2 < k,
 {
     let b = bk(uvs, mask, i);
     let w2 = wrapped || k2 >= k;
     assert(bk(uvs, mask, k) == b);
+    if wrapped && k2 >= k { assert(bk(uvs, mask, i) != b); }
     if k2 != i {
         // k2 is the cyclic predecessor of k: it has not been compared yet
         if k2 < k { if wrapped && k2 < i { assert(bk(uvs, mask, i) != b); } }
@@ -303,7 +305,6 @@ pub struct CuckarooContext { pub params: CuckooParams }
 impl CuckarooContext {
 //@ extract core/src/pow/cuckaroo.rs :: impl PoWContext for CuckarooContext::verify
 //@   sigrewrite `fn verify(&self, proof: &Proof)` => `pub fn verify(&self, proof: &Proof)`
-//@   attr: #[verifier::exec_allows_no_decreases_clause]
 //@   rewrite `return Err(Error::Verification("wrong cycle length".to_owned()).into());` => `return Err(Error::WrongLen);`
 //@   rewrite `return Err(Error::Verification("edge too big".to_owned()));` => `return Err(Error::TooBig);`
 //@   rewrite `return Err(Error::Verification("edges not ascending".to_owned()));` => `return Err(Error::NotAscending);`
@@ -371,9 +372,10 @@ impl CuckarooContext {
 //@+    invariant_except_break
 //@+        size == proof.nonces@.len(), filled(uvs@, self.params, proof.nonces@, 2 * size), uvs@.len() == 2 * size,
 //@+        nn == 2 * size, 1 <= size <= 0x10_0000, mixed_ok(uvs@, mask, hcf, prev@, nn, nn),
-//@+        walk_ok(uvs@, path, js), path.len() == n + 1, path.last() == i, uvs@ == endpoints(self.params, proof.nonces@),
+//@+        walk_ok(uvs@, path, js), path.len() == n + 1, path.last() == i, uvs@ == endpoints(self.params, proof.nonces@), n < nn,
 //@+    ensures
 //@+        walk_ok(uvs@, path, js), path.len() == n, uniq(uvs@, path.last(), jlast), jlast != path.last(), flip1(jlast) == 0,
+//@+    decreases nn - n,
 //@   after `j = i;`:
 //@+    let ghost mut wrapped: bool = false;
 //@+    proof { lemma_pigeon(path, nn); }
@@ -384,6 +386,7 @@ impl CuckarooContext {
 //@+        minv(uvs@, mask, i as int, k as int, j as int, wrapped), uvs@ == endpoints(self.params, proof.nonces@),
 //@+    ensures
 //@+        uniq(uvs@, i as int, j as int), j < nn,
+//@+    decreases (if wrapped { 0int } else { 1int }), k,
 //@   before `k = prev[k];`:
 //@+    let ghost k0 = k;
 //@   after `k = prev[k];`:
@@ -396,7 +399,7 @@ impl CuckarooContext {
 //@+    proof { assert(dead_end(uvs@, i as int)); }
 //@   before `i = j ^ 1;`:
 //@+    proof { lemma_xor1(j); jlast = j as int;
-//@+            if flip1(j as int) != 0 { lemma_walk_extend(uvs@, path, js, j as int); path = path.push(flip1(j as int)); js = js.push(j as int); } }
+//@+            if flip1(j as int) != 0 { lemma_walk_extend(uvs@, path, js, j as int); path = path.push(flip1(j as int)); js = js.push(j as int); lemma_pigeon(path, nn); } }
 //@   before `if n == size {`:
 //@+    proof {
 //@+        assert(uvs@ =~= endpoints(self.params, proof.nonces@));
